@@ -8,6 +8,8 @@ Oracle handlers of property C11.
 * `det` / `detchain` / `detboot`: the driver ran the freshly built binary several times (thread counts,
   reformat chains, seqboot + distance against distboot) and reports `same …` or `differ …`; the model's
   answer is always `same` (the command line is a function of input, flags and seed).
+* `detmulti`: a command given a Phylip input with several alignments must behave as on each alignment
+  alone, one after the other (stdout and every file written).
 * `cli_seeded <stdin> <argv…>`: the bytes a seeded command must print, from the C10 programs run on the
   Go generator replica seeded as `cmd/root.go` seeds it — ties the `--seed` handling, the order of the
   draws in the command loops and the FASTA writer to the model.
@@ -47,6 +49,7 @@ def handle : Handler := fun op args impl =>
   | "det", _ => some (sameVerdict impl "same-command-different-bytes")
   | "detchain", _ => some (sameVerdict impl "reformat-chain-changes-bytes")
   | "detboot", _ => some (sameVerdict impl "distboot-differs-from-seqboot-then-distance")
+  | "detmulti", _ => some (sameVerdict impl "multi-alignment-input-differs-from-alignments-one-by-one")
   | "cli_seeded", stdin :: argv => do
     let rows := parseFasta (stdin.splitOn "|")
     let n := rows.length
